@@ -246,6 +246,9 @@ Proof.
   intros H [->|K]; [now left|right]. destruct (s_views _ _ H t) as (Hk & _). rewrite Forall_forall in Hk. auto.
 Qed.
 
+Lemma s_closed_ptr g a n (Hs : IS g a) q : nxt g n 0 = (q, false) -> q = null \/ apub a q = true.
+Proof. intros E. pose proof (s_closed _ _ Hs n 0%nat) as H. now rewrite E in H. Qed.
+
 (** a node whose level-0 cell is unmarked is on the chain (or is the head) *)
 Lemma unmarked_on_chain g a p : IS g a -> (p = head \/ apub a p = true) -> snd (nxt g p 0) = false -> In p (head :: aL a).
 Proof. intros H [->|Hp] Hm; [now left|right]. eapply s_inL; eauto. Qed.
@@ -743,10 +746,1008 @@ Proof.
       * apply lv_ok_addkn; [|exact Hcl]. apply lv_ok_stable with (pub := apub a); auto; intros; congruence.
     + intros Hi. apply IL_keep with (g := g); auto.
       * rewrite Hv. unfold addkn. destruct (Nat.eqb _ null); reflexivity.
-      * intros S HS. apply abs_cell; auto. intros; congruence.
+      * intros S HS. apply abs_cell; [exact HS|intros; congruence].
   - split; [|apply H; apply (s_I _ _ Hs)]. eapply inv_step; [| |exact Hil].
     + apply (IS_view g g a t _ (aatr a) Hs); [reflexivity|apply (s_HB _ _ Hs)|]. now apply lv_ok_addkn.
     + intros Hi. apply IL_keep with (g := g); auto. rewrite Hv. unfold addkn. destruct (Nat.eqb _ null); reflexivity.
+Qed.
+
+
+Lemma IS_keep_addkn g a t lv q :
+  IS g a -> view a t = lv -> (q = null \/ apub a q = true) -> IS g (mk_a a t (apub a) (aL a) (addkn q lv) (aatr a)).
+Proof.
+  intros Hs Hv Hq. apply (IS_view g g a t _ (aatr a) Hs); [reflexivity|apply (s_HB _ _ Hs)|].
+  apply lv_ok_addkn; [rewrite <- Hv; apply (s_views _ _ Hs)|exact Hq].
+Qed.
+
+Lemma vst_addkn q lv : vst (addkn q lv) = vst lv.
+Proof. unfold addkn. destruct (Nat.eqb q null); reflexivity. Qed.
+
+(** the failing branch of any CAS: nothing changes, the value read is recorded *)
+Lemma cas_fail_step g a t tr lv p l :
+  IS g a -> (IL nodes g a tr \/ exhausted tr) -> view a t = lv ->
+  Inv nodes g (mk_a a t (apub a) (aL a) (addkn (fst (nxt g p l)) lv) (aatr a)) (tr ++ Conc.tag t [EvAcc KCas (o_next p l) false]).
+Proof.
+  intros Hs Hil Hv. eapply inv_step; [| |exact Hil].
+  - apply IS_keep_addkn; auto. apply (s_closed _ _ Hs).
+  - intros Hi. apply IL_keep with (g := g); auto. rewrite Hv. apply vst_addkn.
+Qed.
+
+(** level-0 link CAS of insert_at_position: the linearization point of a successful insert *)
+Lemma S_cas0_link {R} t pred succ new key (k : V -> prog R) lv :
+  known lv pred -> vown lv = Some (new, (succ, false)) -> below key pred -> key_of new = key ->
+  vst lv = @Pending SetSpec (SInsert key) ->
+  (forall cur, SAFE t (k (VC false cur)) (addkn (fst cur) lv)) ->
+  SAFE t (k (VC true (succ, false))) (mkLV (new :: vkn lv) (vfz lv) None (vser lv) (@Linearized SetSpec (SInsert key) (RBool true))) ->
+  SAFE t (Act (a_cas_next pred 0 (succ, false) (new, false)) k) lv.
+Proof.
+  intros Hk Ho Hb Hkey Hst Hfail Hok. subst key. apply S_act. intros g a tr [Hs Hil] Hv. unfold a_cas_next.
+  destruct (mp_eqb (nxt g pred 0) (succ, false)) eqn:E; cbn [fst snd].
+  2:{ exists (apub a), (aL a), (addkn (fst (nxt g pred 0)) lv), (aatr a). split; [now apply cas_fail_step|apply Hfail]. }
+  apply mp_eqb_eq in E. rewrite E.
+  pose proof (s_views _ _ Hs t) as Vt. rewrite Hv in Vt. destruct Vt as (K & F & O & Fr). pose proof O as O'. rewrite Ho in O'. destruct O' as (O1 & O2 & O3 & O4).
+  rewrite <- Hv in Hk. pose proof (known_pub _ _ _ _ Hs Hk) as Hp.
+  assert (Hl : lnk 0 pred new).
+  { right. split; [exact O1|]. destruct Hb as [->|(B1 & B2)]; [now left|right]. split; [exact B1|lia]. }
+  set (lv' := mkLV (new :: vkn lv) (vfz lv) None (vser lv) (@Linearized SetSpec (SInsert (key_of new)) (RBool true))).
+  set (pub' := fun n => Nat.eqb n new || apub a n).
+  change (mkG (upd2 (nxt g) pred 0 (new, false)) (unl g) (hgt_of g) (hgt g) (cnt g)) with (setnx g pred 0 (new, false)).
+  assert (Npred : new <> pred) by (intros ->; destruct Hp as [Ep|Ep]; [unfold isnode, head in *; lia|congruence]).
+  assert (Hv' : lv_ok (setnx g pred 0 (new, false)) pub' t lv').
+  { split; [|split; [|split]]; cbn [vkn vfz vown vser lv'].
+    - constructor; [unfold pub'; now rewrite Nat.eqb_refl|]. eapply Forall_impl; [|exact K]. intros n En. unfold pub'. rewrite En. apply orb_true_r.
+    - rewrite Forall_forall in *. intros [c nx] Hin. destruct (F _ Hin) as (F1 & F2). cbn [fst snd] in *.
+      split; [unfold pub'; rewrite F1; apply orb_true_r|]. rewrite setnx_other0; [exact F2|]. intros ->. rewrite E in F2. discriminate.
+    - exact Logic.I.
+    - intros n H1 H2 H3. destruct (Fr n H1 H2 H3) as [F1 F2]. split; [|discriminate].
+      unfold pub'. rewrite F1, orb_false_r. apply Nat.eqb_neq. intros ->. eapply F2; eauto. }
+  destruct (IS_link g a t pred succ new lv' (aatr a ++ [ALin t]) Hs Hp E ltac:(rewrite Hv; exact Ho) Hl Hv') as (L' & HIS & HL').
+  exists pub', L', lv', (aatr a ++ [ALin t]). split; [|exact Hok].
+  eapply inv_step; [exact HIS| |exact Hil].
+  intros Hi. apply IL_lp with (g := g) (o := SInsert (key_of new)); auto; [rewrite Hv; exact Hst|].
+  intros S HS.
+  assert (Nin : ~ In new (aL a)) by (intros X; apply (s_Lpub _ _ Hs) in X; congruence).
+  destruct (abs_link g a pred succ new S L' Hs E O4 Npred Nin HS HL') as [A1 A2].
+  - intros L0 W0 _. apply (walk_sorted _ (s_I _ _ HIS) L0 head (or_introl eq_refl) W0).
+  - apply (s_walk _ _ HIS).
+  - cbn [set_step]. rewrite A2. cbn [fst snd]. split; [exact A1|reflexivity].
+Qed.
+
+(** level-0 mark CAS of try_remove_at: the linearization point of a successful erase *)
+Lemma S_cas0_mark {R} t del p key (k : V -> prog R) lv :
+  In del (vkn lv) -> key_of del = key -> snd p = false -> lnk 0 del (fst p) ->
+  vst lv = @Pending SetSpec (SErase key) ->
+  (forall cur, lnk 0 del (fst cur) -> SAFE t (k (VC false cur)) (addkn (fst cur) lv)) ->
+  SAFE t (k (VC true p)) (mkLV (vkn lv) ((del, fst p) :: vfz lv) (vown lv) (vser lv) (@Linearized SetSpec (SErase key) (RBool true))) ->
+  SAFE t (Act (a_cas_next del 0 p (fst p, true)) k) lv.
+Proof.
+  intros Hk Hkey Hm Hl Hst Hfail Hok. subst key. apply S_act. intros g a tr [Hs Hil] Hv. unfold a_cas_next.
+  destruct (mp_eqb (nxt g del 0) p) eqn:E; cbn [fst snd].
+  2:{ exists (apub a), (aL a), (addkn (fst (nxt g del 0)) lv), (aatr a). split; [now apply cas_fail_step|apply Hfail; apply (s_I _ _ Hs)]. }
+  apply mp_eqb_eq in E. rewrite E.
+  pose proof (s_views _ _ Hs t) as Vt. rewrite Hv in Vt. destruct Vt as (K & F & O & Fr).
+  assert (Hp : apub a del = true) by (rewrite Forall_forall in K; auto).
+  assert (Hd : nxt g del 0 = (fst p, false)) by (rewrite E; destruct p; cbn in *; congruence).
+  assert (HinL : In del (aL a)) by (apply (s_inL _ _ Hs); [exact Hp|now rewrite Hd]).
+  set (lv' := mkLV (vkn lv) ((del, fst p) :: vfz lv) (vown lv) (vser lv) (@Linearized SetSpec (SErase (key_of del)) (RBool true))).
+  change (mkG (upd2 (nxt g) del 0 (fst p, true)) (unl g) (hgt_of g) (hgt g) (cnt g)) with (setnx g del 0 (fst p, true)).
+  exists (apub a), (aL a), lv', (aatr a ++ [ALin t]). split; [|exact Hok].
+  eapply inv_step; [| |exact Hil].
+  - apply IS_cell; [exact Hs|exact Hl|apply (s_closed_ptr g a del Hs (fst p) Hd)| | | | |].
+    + intros _. right. cbn [fst]. now rewrite Hd.
+    + intros _ ->. apply (s_node _ _ Hs) in Hp. unfold isnode, head in Hp. lia.
+    + intros _ _ X. discriminate.
+    + apply lv_ok_others; [exact Hs|intros _; left; now rewrite Hd|intros _; right; left; exact Hp].
+    + split; [exact K|]. split; [|split].
+      * constructor; [cbn [fst snd]; split; [exact Hp|now rewrite setnx_same]|].
+        rewrite Forall_forall in *. intros [c nx] Hin. destruct (F _ Hin) as (F1 & F2). cbn [fst snd] in *. split; [exact F1|].
+        rewrite setnx_other0; [exact F2|]. intros ->. rewrite Hd in F2. discriminate.
+      * cbn [vown lv']. unfold own_ok in *. destruct (vown lv) as [[n v]|]; [|exact Logic.I]. destruct O as (O1 & O2 & O3 & O4).
+        repeat split; auto. rewrite setnx_other0; [exact O4|]. intros ->. congruence.
+      * exact Fr.
+  - intros Hi. apply IL_lp with (g := g) (o := SErase (key_of del)); auto; [rewrite Hv; exact Hst|].
+    intros S HS. destruct (abs_mark g a S del (fst p) Hs HS HinL Hd) as [A1 A2]. cbn [set_step]. rewrite A2. cbn [fst snd]. split; [exact A1|reflexivity].
+Qed.
+
+(** level-0 unlink CAS (help_remove / try_remove_at): a marked node leaves the chain, the abstract set is unchanged *)
+Lemma S_cas0_unlink {R} t pred cur succ (k : V -> prog R) lv :
+  known lv pred -> In (cur, succ) (vfz lv) -> lnk 0 pred succ ->
+  (forall ok c, lnk 0 pred (fst c) -> SAFE t (k (VC ok c)) (addkn (fst c) lv)) ->
+  SAFE t (Act (a_cas_next pred 0 (cur, false) (succ, false)) k) lv.
+Proof.
+  intros Hk Hfz Hl H. apply S_act. intros g a tr [Hs Hil] Hv. unfold a_cas_next.
+  destruct (mp_eqb (nxt g pred 0) (cur, false)) eqn:E; cbn [fst snd].
+  2:{ exists (apub a), (aL a), (addkn (fst (nxt g pred 0)) lv), (aatr a). split; [now apply cas_fail_step|apply H; apply (s_I _ _ Hs)]. }
+  apply mp_eqb_eq in E. rewrite E.
+  pose proof (s_views _ _ Hs t) as Vt. rewrite Hv in Vt. pose proof Vt as (K & F & O & Fr).
+  rewrite Forall_forall in F. destruct (F _ Hfz) as (Hpc & Hcur). cbn [fst snd] in *.
+  rewrite <- Hv in Hk. pose proof (known_pub _ _ _ _ Hs Hk) as Hp.
+  assert (Nc : cur <> null) by (apply (s_node _ _ Hs) in Hpc; unfold isnode, null in *; lia).
+  change (mkG (upd2 (nxt g) pred 0 (succ, false)) (unl g) (hgt_of g) (hgt g) (cnt g)) with (setnx g pred 0 (succ, false)).
+  assert (Hv' : lv_ok (setnx g pred 0 (succ, false)) (apub a) t (addkn cur lv)).
+  { apply lv_ok_addkn; [|now right]. apply lv_ok_stable with (pub := apub a); auto; [congruence| |].
+    - intros _ c nx Hin ->. destruct (frozen_marked _ _ _ _ _ _ Vt Hin) as [X _]. rewrite E in X. discriminate.
+    - intros _ v X. unfold own_ok in O. rewrite X in O. destruct O as (O1 & O2 & _).
+      destruct Hp as [->|Hp]; [unfold isnode, head in *; lia|congruence]. }
+  destruct (IS_unlink g a t pred cur succ (addkn cur lv) (aatr a) Hs Hp E Nc Hcur Hl Hv') as (L' & HIS & HL').
+  exists (apub a), L', (addkn cur lv), (aatr a). split; [|apply (H true (cur, false)); rewrite <- E; apply (s_I _ _ Hs)].
+  eapply inv_step; [exact HIS| |exact Hil].
+  intros Hi. apply IL_keepL with (g := g); auto; [rewrite Hv; apply vst_addkn|].
+  intros S HS. eapply abs_unlink; eauto.
+Qed.
+
+
+(** ** monotone form: safe for the view and for every view with more facts *)
+Definition SAFEm {R} (t : nat) (p : prog R) (lv : lview) : Prop := forall lv', vle lv lv' -> SAFE t p lv'.
+
+Lemma SAFEm_mono {R} t (p : prog R) lv lv1 : vle lv lv1 -> SAFEm t p lv -> SAFEm t p lv1.
+Proof. intros H1 H lv' H2. apply H. eapply vle_trans; eauto. Qed.
+Lemma SAFEm_here {R} t (p : prog R) lv : SAFEm t p lv -> SAFE t p lv.
+Proof. intros H. apply H. apply vle_refl. Qed.
+
+Lemma vle_addkn_mono q lv lv' : vle lv lv' -> vle (addkn q lv) (addkn q lv').
+Proof.
+  intros (H1 & H2 & H3 & H4 & H5). unfold addkn. destruct (Nat.eqb q null); [repeat split; auto|].
+  repeat split; cbn; auto. intros x [<-|Hx]; [now left|right; auto].
+Qed.
+Lemma vle_addfz_mono c nx lv lv' : vle lv lv' -> vle (addfz c nx lv) (addfz c nx lv').
+Proof. intros (H1 & H2 & H3 & H4 & H5). repeat split; cbn; auto. intros x [<-|Hx]; [now left|right; auto]. Qed.
+
+Lemma Sm_ret {R} t (r : R) lv : SAFEm t (Ret r) lv.
+Proof. intros lv' _. exact Logic.I. Qed.
+
+Lemma Sm_nx {R} t f (k : V -> prog R) lv : nxlike f -> (forall v, SAFEm t (k v) lv) -> SAFEm t (Act f k) lv.
+Proof. intros Hf H lv' Hle. apply S_nx; [exact Hf|]. intros v. now apply H. Qed.
+
+Lemma Sm_ld {R} t p l (k : V -> prog R) lv :
+  (forall x, lnk l p (fst x) -> SAFEm t (k (VP x)) (addkn (fst x) lv)) -> SAFEm t (Act (a_ld_next p l) k) lv.
+Proof. intros H lv' Hle. apply S_ld. intros x Hx. apply (H x Hx). now apply vle_addkn_mono. Qed.
+
+Lemma Sm_ld0 {R} t p (k : V -> prog R) lv :
+  known lv p ->
+  (forall x, lnk 0 p (fst x) ->
+     SAFEm t (k (VP x)) (if snd x then addfz p (fst x) (addkn (fst x) lv) else addkn (fst x) lv)) ->
+  SAFEm t (Act (a_ld_next p 0) k) lv.
+Proof.
+  intros Hk H lv' Hle. apply S_ld0; [eapply known_mono; eauto|]. intros x Hx. apply (H x Hx).
+  destruct (snd x); [apply vle_addfz_mono|]; now apply vle_addkn_mono.
+Qed.
+
+Lemma Sm_guard_h {R} t slot p (k : V -> prog R) lv :
+  (forall h, (h <= MAXH)%nat -> SAFEm t (k (VZ (Z.of_nat h))) lv) -> SAFEm t (Act (a_guard_st_h t slot p) k) lv.
+Proof. intros H lv' Hle. apply S_guard_h. intros h Hh. now apply H. Qed.
+
+Lemma Sm_st_unl {R} t p n h (k : V -> prog R) lv :
+  (h <= MAXH)%nat -> (forall v, SAFEm t (k v) lv) -> SAFEm t (Act (a_st_unl p n h) k) lv.
+Proof. intros Hh H lv' Hle. apply S_st_unl; [exact Hh|]. intros v. now apply H. Qed.
+
+Lemma Sm_st_own {R} t p l x v (k : V -> prog R) lv :
+  vown lv = Some (p, v) -> lnk l p (fst x) -> knownz lv (fst x) ->
+  (forall v', SAFEm t (k v') (if Nat.eqb l 0 then set_own lv (Some (p, x)) else lv)) ->
+  SAFEm t (Act (a_st_next p l x) k) lv.
+Proof.
+  intros Ho Hl Hk H lv' Hle. pose proof Hle as (L1 & L2 & L3 & L4 & L5).
+  apply (S_st_own t p l x v); [congruence|exact Hl|eapply knownz_mono; eauto|].
+  intros v'. apply (H v'). destruct (Nat.eqb l 0); [|exact Hle]. repeat split; cbn; auto.
+Qed.
+
+Lemma Sm_cas_up {R} t p l e d (k : V -> prog R) lv :
+  l <> 0%nat -> lnk l p (fst d) -> knownz lv (fst d) ->
+  (forall ok cur, lnk l p (fst cur) -> SAFEm t (k (VC ok cur)) (addkn (fst cur) lv)) ->
+  SAFEm t (Act (a_cas_next p l e d) k) lv.
+Proof.
+  intros Nl Hl Hk H lv' Hle. apply S_cas_up; [exact Nl|exact Hl|eapply knownz_mono; eauto|].
+  intros ok cur Hc. apply (H ok cur Hc). now apply vle_addkn_mono.
+Qed.
+
+Lemma Sm_cas0_link {R} t pred succ new key (k : V -> prog R) lv :
+  known lv pred -> vown lv = Some (new, (succ, false)) -> below key pred -> key_of new = key ->
+  vst lv = @Pending SetSpec (SInsert key) ->
+  (forall cur, SAFEm t (k (VC false cur)) (addkn (fst cur) lv)) ->
+  SAFEm t (k (VC true (succ, false))) (mkLV (new :: vkn lv) (vfz lv) None (vser lv) (@Linearized SetSpec (SInsert key) (RBool true))) ->
+  SAFEm t (Act (a_cas_next pred 0 (succ, false) (new, false)) k) lv.
+Proof.
+  intros Hk Ho Hb Hkey Hst Hf Hok lv' Hle. pose proof Hle as (L1 & L2 & L3 & L4 & L5).
+  apply (S_cas0_link t pred succ new key); auto; try congruence.
+  - eapply known_mono; eauto.
+  - intros cur. apply (Hf cur). now apply vle_addkn_mono.
+  - apply Hok. repeat split; cbn; auto. intros x [<-|Hx]; [now left|right; auto].
+Qed.
+
+Lemma Sm_cas0_mark {R} t del p key (k : V -> prog R) lv :
+  In del (vkn lv) -> key_of del = key -> snd p = false -> lnk 0 del (fst p) ->
+  vst lv = @Pending SetSpec (SErase key) ->
+  (forall cur, lnk 0 del (fst cur) -> SAFEm t (k (VC false cur)) (addkn (fst cur) lv)) ->
+  SAFEm t (k (VC true p)) (mkLV (vkn lv) ((del, fst p) :: vfz lv) (vown lv) (vser lv) (@Linearized SetSpec (SErase key) (RBool true))) ->
+  SAFEm t (Act (a_cas_next del 0 p (fst p, true)) k) lv.
+Proof.
+  intros Hk Hkey Hm Hl Hst Hf Hok lv' Hle. pose proof Hle as (L1 & L2 & L3 & L4 & L5).
+  apply (S_cas0_mark t del p key); auto; try congruence.
+  - intros cur Hc. apply (Hf cur Hc). now apply vle_addkn_mono.
+  - apply Hok. repeat split; cbn; auto. intros x [<-|Hx]; [now left|right; auto].
+Qed.
+
+Lemma Sm_cas0_unlink {R} t pred cur succ (k : V -> prog R) lv :
+  known lv pred -> In (cur, succ) (vfz lv) -> lnk 0 pred succ ->
+  (forall ok c, lnk 0 pred (fst c) -> SAFEm t (k (VC ok c)) (addkn (fst c) lv)) ->
+  SAFEm t (Act (a_cas_next pred 0 (cur, false) (succ, false)) k) lv.
+Proof.
+  intros Hk Hfz Hl H lv' Hle. pose proof Hle as (L1 & L2 & L3 & L4 & L5).
+  apply (S_cas0_unlink t pred cur succ); auto; [eapply known_mono; eauto|].
+  intros ok c Hc. apply (H ok c Hc). now apply vle_addkn_mono.
+Qed.
+
+
+(** ** client events *)
+Definition set_st (lv : lview) (st : status SetSpec) : lview := mkLV (vkn lv) (vfz lv) (vown lv) (vser lv) st.
+
+Lemma vle_set_st lv lv' st : vle lv lv' -> vle (set_st lv st) (set_st lv' st).
+Proof. intros (H1 & H2 & H3 & H4 & H5). repeat split; cbn; auto. Qed.
+
+Lemma S_emit_gen {R} t es (k : prog R) lv lv1 :
+  (forall g a tr, Inv nodes g a tr -> view a t = lv ->
+     exists atr', Inv nodes g (mk_a a t (apub a) (aL a) lv1 atr') (tr ++ Conc.tag t es)) ->
+  SAFE t k lv1 -> SAFE t (Emit es k) lv.
+Proof.
+  intros H Hk. unfold SAFE. cbn [Conc.safe]. intros g a tr Hi Hv. destruct (H g a tr Hi Hv) as (atr' & H1).
+  exists (mk_a a t (apub a) (aL a) lv1 atr'). split; [exact H1|]. split; [apply frame_mk|]. now rewrite view_mk_same.
+Qed.
+
+Lemma IS_set_st g a t lv st atr' : IS g a -> view a t = lv -> IS g (mk_a a t (apub a) (aL a) (set_st lv st) atr').
+Proof.
+  intros Hs Hv. apply (IS_view g g a t _ atr' Hs); [reflexivity|apply (s_HB _ _ Hs)|].
+  apply lv_ok_st. rewrite <- Hv. apply (s_views _ _ Hs).
+Qed.
+
+Lemma upd_hist_snoc tr e : upd_hist nodes (tr ++ [e]) = hstep (upd_hist nodes tr) e.
+Proof. unfold upd_hist. rewrite fold_left_app. reflexivity. Qed.
+
+Lemma Sm_emit_inv {R} t c key (k : prog R) lv :
+  vst lv = @Idle SetSpec -> SAFEm t k (set_st lv (@Pending SetSpec (sp_op c key))) -> SAFEm t (Emit (ev_inv c key) k) lv.
+Proof.
+  intros Hst Hk lv' Hle. pose proof Hle as (L1 & L2 & L3 & L4 & L5).
+  apply S_emit_gen with (lv1 := set_st lv' (@Pending SetSpec (sp_op c key))); [|apply Hk; now apply vle_set_st].
+  intros g a tr [Hs Hil] Hv. exists (aatr a ++ [@AInv SetSpec t (sp_op c key)]).
+  eapply inv_step; [now apply IS_set_st| |exact Hil].
+  intros [(S & st & H1 & H2 & H3) H4]. constructor; cbn [aatr aL mk_a].
+  - exists S, (upd st t (@Pending SetSpec (sp_op c key))). split; [|split; [|exact H3]].
+    + rewrite (MI.lp_run_snoc _ _ _ H1). cbn [lp_step]. rewrite H2, Hv, L5, Hst. reflexivity.
+    + intros u. destruct (Nat.eq_dec u t) as [->|Hu]; [now rewrite view_mk_same, upd_same|].
+      rewrite view_mk_other by exact Hu. rewrite upd_other by exact Hu. apply H2.
+  - unfold ev_inv. cbn [Conc.tag map]. rewrite upd_hist_snoc, erase_app. cbn [erase hstep String.eqb Ascii.eqb Bool.eqb]. now rewrite H4.
+Qed.
+
+Lemma res_eqb_refl (r : Specs.res) : res_eqb SetSpec r r = true.
+Proof. apply (res_eqb_spec SetSpec). reflexivity. Qed.
+
+(** response of an operation that was linearized at its CAS *)
+Lemma Sm_emit_res_lin {R} t o b (k : prog R) lv :
+  vst lv = @Linearized SetSpec o (RBool true) -> MI.is_read o (RBool true) = false ->
+  SAFEm t k (set_st lv (@Idle SetSpec)) -> SAFEm t (Emit (ev_res 1 b) k) lv.
+Proof.
+  intros Hst Hrd Hk lv' Hle. pose proof Hle as (L1 & L2 & L3 & L4 & L5).
+  apply S_emit_gen with (lv1 := set_st lv' (@Idle SetSpec)); [|apply Hk; now apply vle_set_st].
+  intros g a tr [Hs Hil] Hv. exists (aatr a ++ [@ARes SetSpec t (RBool true)]).
+  eapply inv_step; [now apply IS_set_st| |exact Hil].
+  intros [(S & st & H1 & H2 & H3) H4]. assert (Est : st t = @Linearized SetSpec o (RBool true)) by (rewrite H2, Hv, L5; exact Hst).
+  constructor; cbn [aatr aL mk_a].
+  - exists S, (upd st t (@Idle SetSpec)). split; [|split; [|exact H3]].
+    + rewrite (MI.lp_run_snoc _ _ _ H1). cbn [lp_step]. rewrite Est, res_eqb_refl. reflexivity.
+    + intros u. destruct (Nat.eq_dec u t) as [->|Hu]; [now rewrite view_mk_same, upd_same|].
+      rewrite view_mk_other by exact Hu. rewrite upd_other by exact Hu. apply H2.
+  - destruct (ML.lp_open_split _ _ _ t o H1) as (A & B & EA & HB & _); [rewrite Est; reflexivity|].
+    destruct (MI.erase_split_last t o A B HB) as [K1 _]. rewrite <- EA, H4 in K1.
+    unfold ev_res. cbn [Conc.tag map]. rewrite upd_hist_snoc, erase_app. cbn [erase hstep String.eqb Ascii.eqb Bool.eqb].
+    rewrite K1. cbv zeta. change (1 =? 1) with true. rewrite Hrd, H4. reflexivity.
+Qed.
+
+(** response of an operation that did not modify the set: its invocation is deleted from the history *)
+Lemma Sm_emit_res_read {R} t o ra b (k : prog R) lv :
+  vst lv = @Pending SetSpec o -> MI.is_read o (RBool (ra =? 1)) = true ->
+  SAFEm t k (set_st lv (@Idle SetSpec)) -> SAFEm t (Emit (ev_res ra b) k) lv.
+Proof.
+  intros Hst Hrd Hk lv' Hle. pose proof Hle as (L1 & L2 & L3 & L4 & L5).
+  apply S_emit_gen with (lv1 := set_st lv' (@Idle SetSpec)); [|apply Hk; now apply vle_set_st].
+  intros g a tr [Hs Hil] Hv. destruct Hil as [Hil|Hex].
+  2:{ exists (aatr a). split; [now apply IS_set_st|right; now apply exhausted_app]. }
+  destruct Hil as [(S & st & H1 & H2 & H3) H4]. assert (Est : st t = @Pending SetSpec o) by (rewrite H2, Hv, L5; exact Hst).
+  destruct (ML.lp_open_split _ _ _ t o H1) as (A & B & EA & HB & HP); [rewrite Est; reflexivity|].
+  assert (HB' : forall e, In e B -> MI.aev_tid e <> t) by (apply HP; exact Est).
+  rewrite EA in H1. destruct (MI.lp_run_remove A B t o S st H1 HB') as (st' & K1 & K2 & K3).
+  exists (A ++ B). split; [now apply IS_set_st|left]. constructor; cbn [aatr aL mk_a].
+  - exists S, st'. split; [exact K1|]. split; [|exact H3].
+    intros u. destruct (Nat.eq_dec u t) as [->|Hu]; [now rewrite view_mk_same|].
+    rewrite view_mk_other by exact Hu. rewrite K2 by exact Hu. apply H2.
+  - destruct (MI.erase_split_last t o A B HB) as [J1 J2]. rewrite <- EA, H4 in J1, J2.
+    unfold ev_res. cbn [Conc.tag map]. rewrite upd_hist_snoc. cbn [hstep String.eqb Ascii.eqb Bool.eqb].
+    rewrite J1. cbv zeta. rewrite Hrd. symmetry. exact J2.
+Qed.
+
+Lemma Sm_out_of_fuel {R} t s (k : TL -> prog R) lv :
+  (forall s', SAFEm t (k s') (set_st lv (@Idle SetSpec))) -> SAFEm t (out_of_fuel s k) lv.
+Proof.
+  intros Hk lv' Hle. unfold out_of_fuel.
+  apply S_emit_gen with (lv1 := set_st lv' (@Idle SetSpec)); [|apply Hk; now apply vle_set_st].
+  intros g a tr [Hs Hil] Hv. exists (aatr a). split; [now apply IS_set_st|right].
+  exists t. apply in_or_app. right. now left.
+Qed.
+
+
+(** ** the functions of the model *)
+Ltac snx := apply Sm_nx; [nxl|intros ?].
+
+Lemma Sm_assign {R} t s slot (k : prog R) lv : SAFEm t k lv -> SAFEm t (g_assign s slot k) lv.
+Proof. intros H. unfold g_assign. snx. snx. exact H. Qed.
+Lemma Sm_clear {R} t s slot (k : prog R) lv : SAFEm t k lv -> SAFEm t (g_clear s slot k) lv.
+Proof. intros H. unfold g_clear. snx. exact H. Qed.
+Lemma Sm_copy {R} t s a b (k : prog R) lv : SAFEm t k lv -> SAFEm t (g_copy s a b k) lv.
+Proof. intros H. unfold g_copy. snx. snx. snx. exact H. Qed.
+Lemma Sm_retire {R} t s (k : prog R) lv : SAFEm t k lv -> SAFEm t (retire s k) lv.
+Proof. intros H. unfold retire. snx. snx. exact H. Qed.
+Lemma Sm_free_all {R} t slots : forall s (k : TL -> prog R) lv, (forall s', SAFEm t (k s') lv) -> SAFEm t (g_free_all s slots k) lv.
+Proof. induction slots as [|x r IH]; intros s k lv H; cbn [g_free_all]; [apply H|]. apply Sm_clear. apply IH. exact H. Qed.
+
+(** the thread-local record keeps its thread id and its node serial *)
+Definition tlk (t n : nat) (s : TL) : Prop := tid s = t /\ ser s = n.
+Lemma tlk_alloc1 t n s x s1 : alloc1 s = (x, s1) -> tlk t n s -> tlk t n s1.
+Proof. unfold alloc1. destruct (fl s); intros E H; inversion E; subst; exact H. Qed.
+Lemma tlk_free1 t n x s : tlk t n s -> tlk t n (free1 x s).
+Proof. intros H. exact H. Qed.
+
+Lemma knownz_addkn_mono q lv lv1 : vle (addkn q lv) lv1 -> knownz lv1 q.
+Proof. intros H. eapply knownz_mono; [exact H|apply knownz_addkn]. Qed.
+
+Lemma T_ga_protect {R} t fuel : forall s slot p l (k : option mptr -> prog R) lv,
+  (forall lv1, vle lv lv1 -> SAFEm t (k None) lv1) ->
+  (forall x lv1, vle lv lv1 -> lnk l p (fst x) -> knownz lv1 (fst x) -> SAFEm t (k (Some x)) lv1) ->
+  SAFEm t (ga_protect fuel s slot p l k) lv.
+Proof.
+  induction fuel as [|f IH]; intros s slot p l k lv H0 H1; cbn [ga_protect]; [apply H0, vle_refl|].
+  apply Sm_ld. intros x1 L1. snx. snx. apply Sm_ld. intros x2 L2. cbn [vp].
+  assert (V : vle lv (addkn (fst x2) (addkn (fst x1) lv))) by (eapply vle_trans; apply vle_addkn).
+  destruct (mp_eqb x1 x2).
+  - apply H1; [exact V|exact L1|]. eapply knownz_mono; [apply vle_addkn|apply knownz_addkn].
+  - apply IH.
+    + intros lv1 Hle. apply H0. eapply vle_trans; eauto.
+    + intros x lv1 Hle. apply H1. eapply vle_trans; eauto.
+Qed.
+
+(** Guard::protect on the cell of a known node: a marked level-0 value is recorded as frozen *)
+Definition fzfact (l : nat) (p : ptr) (x : mptr) (lv : lview) : Prop := l = 0%nat -> snd x = true -> In (p, fst x) (vfz lv).
+
+Lemma Sm_ldk {R} t p l (k : V -> prog R) lv :
+  known lv p ->
+  (forall x lv1, vle lv lv1 -> lnk l p (fst x) -> knownz lv1 (fst x) -> fzfact l p x lv1 -> SAFEm t (k (VP x)) lv1) ->
+  SAFEm t (Act (a_ld_next p l) k) lv.
+Proof.
+  intros Hk H. destruct l as [|l].
+  - apply Sm_ld0; [exact Hk|]. intros x Lx. destruct (snd x) eqn:E.
+    + apply H; auto.
+      * eapply vle_trans; [apply vle_addkn|apply vle_addfz].
+      * eapply knownz_mono; [apply vle_addfz|apply knownz_addkn].
+      * intros _ _. now left.
+    + apply H; auto; [apply vle_addkn|apply knownz_addkn|intros _ X; congruence].
+  - apply Sm_ld. intros x Lx. apply H; auto; [apply vle_addkn|apply knownz_addkn|intros X; discriminate].
+Qed.
+
+Lemma T_g_protect_again {R} t fuel : forall s slot p l cur (k : option mptr -> prog R) lv,
+  known lv p ->
+  (forall lv1, vle lv lv1 -> SAFEm t (k None) lv1) ->
+  (forall x lv1, vle lv lv1 -> lnk l p (fst x) -> knownz lv1 (fst x) -> fzfact l p x lv1 -> SAFEm t (k (Some x)) lv1) ->
+  SAFEm t (g_protect_again fuel s slot p l cur k) lv.
+Proof.
+  induction fuel as [|f IH]; intros s slot p l cur k lv Hk H0 H1; cbn [g_protect_again]; [apply H0, vle_refl|].
+  snx. snx. apply Sm_ldk; [exact Hk|]. intros x2 lv1 V L2 K2 F2. cbn [vp]. destruct (mp_eqb cur x2); [now apply H1|].
+  apply IH; [eapply known_mono; eauto| |].
+  - intros lv2 Hle. apply H0. eapply vle_trans; eauto.
+  - intros x lv2 Hle. apply H1. eapply vle_trans; eauto.
+Qed.
+
+Lemma T_g_protect {R} t fuel : forall s slot p l (k : option mptr -> prog R) lv,
+  known lv p ->
+  (forall lv1, vle lv lv1 -> SAFEm t (k None) lv1) ->
+  (forall x lv1, vle lv lv1 -> lnk l p (fst x) -> knownz lv1 (fst x) -> fzfact l p x lv1 -> SAFEm t (k (Some x)) lv1) ->
+  SAFEm t (g_protect fuel s slot p l k) lv.
+Proof.
+  destruct fuel as [|f]; intros s slot p l k lv Hk H0 H1; cbn [g_protect]; [apply H0, vle_refl|].
+  apply Sm_ld. intros x1 L1. snx. snx. apply Sm_ldk; [eapply known_mono; [apply vle_addkn|exact Hk]|].
+  intros x2 lv1 V L2 K2 F2. cbn [vp].
+  assert (V' : vle lv lv1) by (eapply vle_trans; [apply vle_addkn|exact V]).
+  destruct (mp_eqb x1 x2); [now apply H1|].
+  apply T_g_protect_again; [eapply known_mono; eauto| |].
+  - intros lv2 Hle. apply H0. eapply vle_trans; eauto.
+  - intros x lv2 Hle. apply H1. eapply vle_trans; eauto.
+Qed.
+
+Lemma T_help_remove {R} t n fuel s l pred cur (k : res TL -> prog R) lv :
+  tlk t n s -> ltp l pred cur -> known lv pred -> known lv cur ->
+  (forall r lv1, vle lv lv1 -> match r with Ok s' => tlk t n s' | Fuel => True end -> SAFEm t (k r) lv1) -> SAFEm t (help_remove fuel s l pred cur k) lv.
+Proof.
+  intros Ht Hpc Kp Kc Hk. unfold help_remove. snx. destruct (vz v =? Z.of_nat l + 1); [|apply Hk; [apply vle_refl|exact Ht]].
+  destruct (alloc1 s) as [hp s1] eqn:Ea. pose proof (tlk_alloc1 _ _ _ _ _ Ea Ht) as Ht1.
+  apply T_g_protect; [exact Kc|intros; apply Hk; [assumption|exact Logic.I]|]. intros succ lv1 V Ls Ks Fs.
+  assert (Hdone : forall lv2, vle lv1 lv2 -> SAFEm t (g_clear s1 hp (k (Ok (free1 hp s1)))) lv2).
+  { intros lv2 V2. apply Sm_clear. apply Hk; [eapply vle_trans; eauto|apply tlk_free1; exact Ht1]. }
+  destruct (snd succ) eqn:Em; [|apply Hdone, vle_refl].
+  assert (Hafter : forall ok c lv2, vle lv1 lv2 ->
+            SAFEm t (if vok (VC ok c) then Act (a_fas_unl cur 1) (fun u1 => if vz u1 =? 1 then retire s1 (g_clear s1 hp (k (Ok (free1 hp s1)))) else g_clear s1 hp (k (Ok (free1 hp s1))))
+                     else g_clear s1 hp (k (Ok (free1 hp s1)))) lv2).
+  { intros ok c lv2 V2. cbn [vok]. destruct ok; [|now apply Hdone]. snx. destruct (vz v0 =? 1); [apply Sm_retire|]; now apply Hdone. }
+  destruct l as [|l'].
+  - apply Sm_cas0_unlink; [eapply known_mono; eauto|apply Fs; auto|eapply ltp_trans; eauto|].
+    intros ok c _. apply Hafter. apply vle_addkn.
+  - apply Sm_cas_up; [discriminate|cbn [fst]; eapply ltp_trans; eauto|exact Ks|].
+    intros ok c _. apply Hafter. apply vle_addkn.
+Qed.
+
+Lemma T_fp_level {R} t n fuel : forall s key stop own lvl pred ps ncmp (retry : TL -> prog R) k kf kown lv,
+  tlk t n s -> below key pred -> known lv pred ->
+  (forall s' lv1, tlk t n s' -> vle lv lv1 -> SAFEm t (retry s') lv1) -> (forall lv1, vle lv lv1 -> SAFEm t kf lv1) ->
+  (forall s' lv1, tlk t n s' -> vle lv lv1 -> SAFEm t (kown s') lv1) ->
+  (forall s' pred' cur c found lv1, tlk t n s' -> vle lv lv1 -> below key pred' -> known lv1 pred' -> knownz lv1 (fst cur) ->
+      curfact key stop cur c found -> SAFEm t (k s' pred' cur c found) lv1) ->
+  SAFEm t (fp_level fuel s key stop own lvl pred ps ncmp retry k kf kown) lv.
+Proof.
+  induction fuel as [|f IH]; intros s key stop own lvl pred ps ncmp retry k kf kown lv Ht Hb Kp Hr Hf Ho Hk; cbn [fp_level]; [apply Hf, vle_refl|].
+  apply T_ga_protect; [exact Hf|]. intros cur lv1 V1 Lc Kc. destruct (snd cur); [now apply Hr|].
+  assert (Kp1 : known lv1 pred) by (eapply known_mono; eauto).
+  destruct (Nat.eqb (fst cur) null) eqn:En; [apply Hk; auto; split; [discriminate|now left; apply Nat.eqb_eq]|].
+  pose proof (lnk_ltp _ _ _ Lc (eqb_null _ En)) as Lt.
+  assert (Kc1 : known lv1 (fst cur)) by (apply known_of_knownz; [exact Kc|now apply eqb_null]).
+  apply Sm_ld. intros xs Ls. apply Sm_ld. intros xr Lr. cbn [vp].
+  set (lv3 := addkn (fst xr) (addkn (fst xs) lv1)).
+  assert (V3 : vle lv1 lv3) by (eapply vle_trans; apply vle_addkn).
+  assert (V03 : vle lv lv3) by (eapply vle_trans; eauto).
+  destruct (negb (mp_eqb xr (fst cur, false))); [now apply Hr|].
+  destruct (snd xs).
+  - destruct (negb (Nat.eqb own null) && Nat.eqb (fst cur) own); [now apply Ho|].
+    apply (T_help_remove t n); [exact Ht|exact Lt|exact (known_mono _ _ _ V3 Kp1)|exact (known_mono _ _ _ V3 Kc1)|].
+    intros [s'|] lv4 V4 Hs; [apply Hr; [exact Hs|]|apply Hf]; eapply vle_trans; eauto.
+  - set (c := cmpk (fst cur) key). destruct (Z.ltb_spec c 0) as [C|C].
+    + apply Sm_copy. apply IH; auto.
+      * right. split; [eapply ltp_isnode; eauto|]. unfold c, cmpk in C. lia.
+      * exact (known_mono _ _ _ V3 Kc1).
+      * intros s' lv4 Hs V4. apply Hr; [exact Hs|]. eapply vle_trans; eauto.
+      * intros lv4 V4. apply Hf. eapply vle_trans; eauto.
+      * intros s' lv4 Hs V4. apply Ho; [exact Hs|]. eapply vle_trans; eauto.
+      * intros s' pred' cur' c' found lv4 Ht' V4. apply Hk; auto. eapply vle_trans; eauto.
+    + destruct ((c =? 0) && stop) eqn:E.
+      * apply Hk; auto; [exact (known_mono _ _ _ V3 Kp1)|exact (knownz_mono _ _ _ V3 Kc)|].
+        split; [intros _; split; [eapply ltp_isnode; eauto|apply andb_true_iff in E; apply E]|]. right. apply andb_true_iff in E. destruct E as [E1 E2]. apply Z.eqb_eq in E1.
+        repeat split; [eapply ltp_isnode; eauto|fold c; lia|lia|intros _ X; discriminate].
+      * apply Hk; auto; [exact (known_mono _ _ _ V3 Kp1)|exact (knownz_mono _ _ _ V3 Kc)|].
+        split; [discriminate|]. right. repeat split; [eapply ltp_isnode; eauto|exact C|].
+        intros -> _. rewrite andb_true_r in E. apply Z.eqb_neq in E. lia.
+Qed.
+
+Definition posk_above (n : nat) (lv : lview) (ps : pos) : Prop :=
+  forall L, (n <= L < MAXH)%nat -> known lv (pprev ps L) /\ knownz lv (psucc ps L).
+Definition posk := posk_above 0.
+
+Lemma posk_mono n lv lv1 ps : vle lv lv1 -> posk_above n lv ps -> posk_above n lv1 ps.
+Proof. intros V H L HL. destruct (H L HL). split; [eapply known_mono|eapply knownz_mono]; eauto. Qed.
+
+(** what the view knows about a position: on the early exit of the search only [pcur] *)
+Definition okn (stop : bool) (lv : lview) (o : fp_out) : Prop :=
+  match o with
+  | FpFound ps => knownz lv (pcur ps) /\ ((stop = true /\ isnode (pcur ps)) \/ posk lv ps)
+  | FpNotFound ps => posk lv ps
+  | FpOwnRemoved => True
+  end.
+
+Lemma T_fp_levels {R} t sn fuel : forall n s key stop own pred ps ncmp (retry : TL -> prog R) k kf lv,
+  tlk t sn s -> (n <= MAXH)%nat -> below key pred -> known lv pred -> pos_above n key stop ps -> posk_above n lv ps ->
+  ((n < MAXH)%nat -> (pcur ps = null \/ (isnode (pcur ps) /\ ncmp = cmpk (pcur ps) key)) /\ knownz lv (pcur ps)) ->
+  (forall s' lv1, tlk t sn s' -> vle lv lv1 -> SAFEm t (retry s') lv1) -> (forall lv1, vle lv lv1 -> SAFEm t kf lv1) ->
+  (forall s' o lv1, tlk t sn s' -> vle lv lv1 -> fp_post key stop o -> okn stop lv1 o -> SAFEm t (k s' o) lv1) ->
+  SAFEm t (fp_levels fuel n s key stop own pred ps ncmp retry k kf) lv.
+Proof.
+  induction n as [|lvl IH]; intros s key stop own pred ps ncmp retry k kf lv Ht Hn Hb Kp Hp Hq Hc Hr Hf Hk; cbn [fp_levels].
+  - destruct (Hc ltac:(unfold MAXH; lia)) as [Hc' Kc].
+    destruct (Z.eqb_spec ncmp 0) as [E|E]; apply Hk; auto using vle_refl; cbn [fp_post okn].
+    + right. split; [exact Hp|]. destruct Hc' as [H|(H1 & H2)]; [now left|right]. split; auto. unfold cmpk in H2. lia.
+    + split; [exact Kc|now right].
+  - apply Sm_assign. apply (T_fp_level t sn); auto.
+    + intros s' lv1 Hs V. apply Hk; auto; exact Logic.I.
+    + intros s' pred' cur c found lv1 Ht' V Hb' Kp' Kc' Hcf. destruct found.
+      * destruct Hcf as [Hfd _]. destruct (Hfd eq_refl) as [F1 F2]. apply Hk; auto; cbn [fp_post okn pcur].
+        -- left. split; assumption.
+        -- split; [exact Kc'|]. left. split; assumption.
+      * apply IH; auto; [lia| | | | | |].
+        -- intros L HL. cbn [pprev psucc]. destruct Hcf as [_ Hcf]. destruct (Nat.eq_dec L lvl) as [->|NL].
+           ++ rewrite !set_lvl_same. split; [exact Hb'|]. destruct Hcf as [H|(H1 & H2 & H3 & H4)]; [now left|right].
+              split; [exact H1|]. unfold cmpk in *. destruct stop; [specialize (H4 eq_refl eq_refl); lia|lia].
+           ++ rewrite !set_lvl_other by exact NL. apply Hp. lia.
+        -- intros L HL. cbn [pprev psucc]. destruct (Nat.eq_dec L lvl) as [->|NL].
+           ++ rewrite !set_lvl_same. split; assumption.
+           ++ rewrite !set_lvl_other by exact NL. eapply posk_mono; [exact V|exact Hq|lia].
+        -- intros _. cbn [pcur]. split; [|exact Kc']. destruct Hcf as [_ [H|(H1 & H2 & H3 & H4)]]; [now left|right; auto].
+        -- intros s'' lv2 Hs V2. apply Hr; [exact Hs|]. eapply vle_trans; eauto.
+        -- intros lv2 V2. apply Hf. eapply vle_trans; eauto.
+        -- intros s'' o lv2 Ht'' V2. apply Hk; auto. eapply vle_trans; eauto.
+Qed.
+
+Lemma T_find_position {R} t n fuel : forall s key stop own ps (k : TL -> fp_out -> prog R) kf lv,
+  tlk t n s ->
+  (forall s' o lv1, tlk t n s' -> vle lv lv1 -> fp_post' own key stop o -> okn stop lv1 o -> SAFEm t (k s' o) lv1) ->
+  (forall lv1, vle lv lv1 -> SAFEm t kf lv1) -> SAFEm t (find_position fuel s key stop own ps k kf) lv.
+Proof.
+  induction fuel as [|f IH]; intros s key stop own ps k kf lv Ht Hk Hf; cbn [find_position]; [apply Hf, vle_refl|].
+  apply (T_fp_levels t n); auto.
+  - now left.
+  - now left.
+  - intros L HL. lia.
+  - intros L HL. lia.
+  - intros HL. lia.
+  - intros s' lv1 Hs V. apply IH; auto.
+    + intros s'' o lv2 Ht'' V2. apply Hk; auto. eapply vle_trans; eauto.
+    + intros lv2 V2. apply Hf. eapply vle_trans; eauto.
+  - intros s' [ps'| ps'|] lv1 Ht' V Hp Ho.
+    + destruct (Nat.eqb own null && Nat.eqb (pcur ps') null) eqn:E.
+      * apply andb_true_iff in E. destruct E as [E1 E2]. apply Nat.eqb_eq in E2. cbn [fp_post okn] in *.
+        assert (Nn : ~ isnode (pcur ps')) by (unfold isnode; rewrite E2; unfold null; lia).
+        apply Hk; auto.
+        -- split; [|intros _; exact Logic.I]. cbn [fp_post]. destruct Hp as [(_ & Hn)|(Hp & _)]; [tauto|exact Hp].
+        -- cbn [okn]. destruct Ho as (_ & [(_ & Hn)|Ho]); [tauto|exact Ho].
+      * apply Hk; auto. split; [exact Hp|]. intros ->. cbn [Nat.eqb andb] in E. now apply Nat.eqb_neq.
+    + apply Hk; auto. split; [exact Hp|intros _; exact Logic.I].
+    + apply Hk; auto. split; [exact Logic.I|intros _; exact Logic.I].
+Qed.
+
+Lemma posk_full (stop : bool) lv ps : (stop = true /\ isnode (pcur ps)) \/ posk lv ps -> stop = false -> posk lv ps.
+Proof. intros [(E & _)|H] E'; [congruence|exact H]. Qed.
+
+(** ** try_remove_at *)
+Lemma S_ld_fz {R} t p nx (k : V -> prog R) lv :
+  In (p, nx) (vfz lv) -> (lnk 0 p nx -> SAFE t (k (VP (nx, true))) lv) -> SAFE t (Act (a_ld_next p 0) k) lv.
+Proof.
+  intros Hin H. apply S_keep; [nxl|]. intros g a Hs Hv. exists lv. split; [reflexivity|].
+  pose proof (s_views _ _ Hs t) as Vt. rewrite Hv in Vt. split; [exact Vt|].
+  cbn [a_ld_next fst snd]. destruct Vt as (_ & F & _). rewrite Forall_forall in F. destruct (F _ Hin) as (_ & F2). cbn [fst snd] in F2.
+  rewrite F2. apply H. pose proof (s_I _ _ Hs p 0%nat) as Hl. now rewrite F2 in Hl.
+Qed.
+Lemma Sm_ld_fz {R} t p nx (k : V -> prog R) lv :
+  In (p, nx) (vfz lv) -> (lnk 0 p nx -> SAFEm t (k (VP (nx, true))) lv) -> SAFEm t (Act (a_ld_next p 0) k) lv.
+Proof. intros Hin H lv' Hle. apply S_ld_fz with nx; [destruct Hle as (_ & H2 & _); now apply H2|]. intros Hl. now apply H. Qed.
+
+Lemma T_tr_mark_one {R} t fuel : forall del l cur (k : prog R) kf lv,
+  l <> 0%nat -> lnk l del (fst cur) -> knownz lv (fst cur) ->
+  (forall lv1, vle lv lv1 -> SAFEm t k lv1) -> (forall lv1, vle lv lv1 -> SAFEm t kf lv1) ->
+  SAFEm t (tr_mark_one fuel del l cur k kf) lv.
+Proof.
+  induction fuel as [|f IH]; intros del l cur k kf lv Nl Hc Kc Hk Hf; cbn [tr_mark_one]; [apply Hf, vle_refl|].
+  apply Sm_cas_up; [exact Nl|exact Hc|exact Kc|]. intros ok c Lc. cbn [vok vp]. destruct ok; [apply Hk, vle_addkn|].
+  destruct (snd c); [apply Hk, vle_addkn|]. apply IH; auto; [apply knownz_addkn| |].
+  - intros lv1 V. apply Hk. eapply vle_trans; [apply vle_addkn|exact V].
+  - intros lv1 V. apply Hf. eapply vle_trans; [apply vle_addkn|exact V].
+Qed.
+
+Lemma T_tr_mark_upper {R} t fuel : forall n del (k : prog R) kf lv,
+  (forall lv1, vle lv lv1 -> SAFEm t k lv1) -> (forall lv1, vle lv lv1 -> SAFEm t kf lv1) ->
+  SAFEm t (tr_mark_upper fuel del n k kf) lv.
+Proof.
+  induction n as [|n IH]; intros del k kf lv Hk Hf; cbn [tr_mark_upper]; [apply Hk, vle_refl|].
+  apply Sm_ld. intros x Lx. cbn [vp].
+  assert (Hnext : forall lv1, vle (addkn (fst x) lv) lv1 -> SAFEm t (tr_mark_upper fuel del n k kf) lv1).
+  { intros lv1 V. apply IH.
+    - intros lv2 V2. apply Hk. eapply vle_trans; [apply vle_addkn|]. eapply vle_trans; eauto.
+    - intros lv2 V2. apply Hf. eapply vle_trans; [apply vle_addkn|]. eapply vle_trans; eauto. }
+  destruct (snd x); [apply Hnext, vle_refl|].
+  apply T_tr_mark_one; auto; [apply knownz_addkn|].
+  intros lv1 V. apply Hf. eapply vle_trans; [apply vle_addkn|exact V].
+Qed.
+
+(** continuation of an operation: only the serial number and the status of the view matter *)
+Definition kpost {R} t n (st : status SetSpec) (k : TL -> prog R) : Prop :=
+  forall s' lv1, tlk t n s' -> vser lv1 = n -> vst lv1 = st -> SAFEm t (k s') lv1.
+
+Lemma vle_ser lv lv1 : vle lv lv1 -> vser lv1 = vser lv.
+Proof. intros (_ & _ & _ & H & _). exact H. Qed.
+Lemma vle_st lv lv1 : vle lv lv1 -> vst lv1 = vst lv.
+Proof. intros (_ & _ & _ & _ & H). exact H. Qed.
+Lemma vle_own lv lv1 : vle lv lv1 -> vown lv1 = vown lv.
+Proof. intros (_ & _ & H & _). exact H. Qed.
+Lemma vle_fz lv lv1 x : vle lv lv1 -> In x (vfz lv) -> In x (vfz lv1).
+Proof. intros (_ & H & _). apply H. Qed.
+Lemma vle_kn lv lv1 x : vle lv lv1 -> In x (vkn lv) -> In x (vkn lv1).
+Proof. intros (H & _). apply H. Qed.
+
+Definition kfpost {R} t n (kf : prog R) : Prop := forall lv1, vser lv1 = n -> SAFEm t kf lv1.
+
+Lemma T_tr_unlink {R} t sn fuel : forall n s key del nx ps (k : TL -> prog R) kf lv,
+  tlk t sn s -> vser lv = sn -> (n <= MAXH)%nat -> rem_pre ps del -> posk lv ps -> In (del, nx) (vfz lv) ->
+  kpost t sn (vst lv) k -> kfpost t sn kf ->
+  SAFEm t (tr_unlink fuel s key del n ps k kf) lv.
+Proof.
+  induction n as [|l IH]; intros s key del nx ps k kf lv Ht Hser Hn Hp Hq Hfz Hk Hf; cbn [tr_unlink]; [apply Sm_retire; now apply Hk|].
+  destruct Hp as [Hd Hp].
+  assert (Hfind : forall lv1, vle lv lv1 -> SAFEm t (find_position fuel s key false null ps (fun s' _ => k s') kf) lv1).
+  { intros lv1 V. apply (T_find_position t sn); auto.
+    - intros s' o lv2 Hs V2 _ _. apply Hk; [exact Hs| |].
+      + rewrite (vle_ser _ _ V2), (vle_ser _ _ V). exact Hser.
+      + rewrite (vle_st _ _ V2), (vle_st _ _ V). reflexivity.
+    - intros lv2 V2. apply Hf. rewrite (vle_ser _ _ V2), (vle_ser _ _ V). exact Hser. }
+  assert (Hnext : forall lv1, vle lv lv1 -> SAFEm t (Act (a_fas_unl del 1) (fun _ => tr_unlink fuel s key del l ps k kf)) lv1).
+  { intros lv1 V. snx. apply IH with (nx := nx); auto; [rewrite (vle_ser _ _ V); exact Hser|lia|split; auto|eapply posk_mono; eauto|eapply vle_fz; eauto|].
+    rewrite (vle_st _ _ V). exact Hk. }
+  destruct (Hq l ltac:(lia)) as [Kp _].
+  destruct l as [|l'].
+  - apply Sm_ld_fz with nx; [exact Hfz|]. intros Ls. cbn [vp fst].
+    apply Sm_cas0_unlink; [exact Kp|exact Hfz| |].
+    + eapply ltp_trans; [|exact Ls]. apply nbelow_ltp; [apply Hp; lia|exact Hd].
+    + intros ok c _. cbn [vok]. destruct ok; [apply Hnext|apply Hfind]; apply vle_addkn.
+  - apply Sm_ld. intros xs Ls. cbn [vp].
+    apply Sm_cas_up; [discriminate| |apply knownz_addkn|].
+    + cbn [fst]. eapply ltp_trans; [|exact Ls]. apply nbelow_ltp; [apply Hp; lia|exact Hd].
+    + intros ok c _. cbn [vok]. destruct ok; [apply Hnext|apply Hfind]; (eapply vle_trans; apply vle_addkn).
+Qed.
+
+Lemma T_tr_lp {R} t sn fuel : forall s key del h p ps (k : TL -> bool -> prog R) kf lv,
+  tlk t sn s -> vser lv = sn -> (h <= MAXH)%nat -> rem_pre ps del -> posk lv ps -> In del (vkn lv) -> key_of del = key ->
+  snd p = false -> lnk 0 del (fst p) -> vst lv = @Pending SetSpec (SErase key) ->
+  kpost t sn (@Pending SetSpec (SErase key)) (fun s' => k s' false) ->
+  kpost t sn (@Linearized SetSpec (SErase key) (RBool true)) (fun s' => k s' true) ->
+  kfpost t sn kf ->
+  SAFEm t (tr_lp fuel s key del h p ps k kf) lv.
+Proof.
+  induction fuel as [|f IH]; intros s key del h p ps k kf lv Ht Hser Hh Hp Hq Kd Hkey Hm Hl Hst Hk0 Hk1 Hf; cbn [tr_lp]; [now apply Hf|].
+  apply Sm_cas0_mark with (key := key); auto.
+  - intros c Lc. cbn [vok vp]. assert (V : vle lv (addkn (fst c) lv)) by apply vle_addkn.
+    destruct (snd c) eqn:Ec.
+    + apply Hk0; [exact Ht|rewrite (vle_ser _ _ V); exact Hser|rewrite (vle_st _ _ V); exact Hst].
+    + apply IH; auto; [rewrite (vle_ser _ _ V); exact Hser|eapply posk_mono; eauto|eapply vle_kn; eauto|rewrite (vle_st _ _ V); exact Hst].
+  - cbn [vok]. set (lvS := mkLV (vkn lv) ((del, fst p) :: vfz lv) (vown lv) (vser lv) (@Linearized SetSpec (SErase key) (RBool true))).
+    apply (T_tr_unlink t sn) with (nx := fst p); auto.
+    now left.
+Qed.
+
+Lemma T_try_remove_at {R} t sn fuel s del h ps (k : TL -> bool -> prog R) kf lv :
+  tlk t sn s -> vser lv = sn -> (h <= MAXH)%nat -> rem_pre ps del -> posk lv ps -> In del (vkn lv) ->
+  vst lv = @Pending SetSpec (SErase (key_of del)) ->
+  kpost t sn (@Pending SetSpec (SErase (key_of del))) (fun s' => k s' false) ->
+  kpost t sn (@Linearized SetSpec (SErase (key_of del)) (RBool true)) (fun s' => k s' true) ->
+  kfpost t sn kf ->
+  SAFEm t (try_remove_at fuel s del h ps k kf) lv.
+Proof.
+  intros Ht Hser Hh Hp Hq Kd Hst Hk0 Hk1 Hf. unfold try_remove_at. apply T_tr_mark_upper.
+  - intros lv1 V. apply Sm_ldk; [right; eapply vle_kn; eauto|]. intros x lv2 V2 Lx Kx _. cbn [vp].
+    assert (V02 : vle lv lv2) by (eapply vle_trans; eauto).
+    apply (T_tr_lp t sn); auto; [rewrite (vle_ser _ _ V02); exact Hser|eapply posk_mono; eauto|eapply vle_kn; eauto|rewrite (vle_st _ _ V02); exact Hst].
+  - intros lv1 V. apply Hf. rewrite (vle_ser _ _ V). exact Hser.
+Qed.
+
+(** ** insert_at_position *)
+Lemma T_ia_clear_upper {R} t new v : forall h l (k : prog R) lv,
+  (1 <= l)%nat -> vown lv = Some (new, v) -> SAFEm t k lv -> SAFEm t (ia_clear_upper new l h k) lv.
+Proof.
+  induction h as [|h IH]; intros l k lv Hl Ho Hk; cbn [ia_clear_upper]; [exact Hk|].
+  destruct (Nat.ltb l (l + S h)); [|exact Hk].
+  apply Sm_st_own with (v := v); [exact Ho|now left|now left|]. intros _.
+  destruct (Nat.eqb_spec l 0) as [E|_]; [lia|]. apply IH; auto.
+Qed.
+
+Lemma posk_incl lv lv1 ps : incl (vkn lv) (vkn lv1) -> posk lv ps -> posk lv1 ps.
+Proof.
+  intros Hi H L HL. destruct (H L HL) as [A B]. split; [destruct A as [A|A]; [now left|right; auto]|destruct B as [B|B]; [now left|right; auto]].
+Qed.
+
+Lemma T_ia_level {R} t sn fuel : forall s key new h l p ps (knext : TL -> pos -> prog R) kdone kf lv,
+  tlk t sn s -> (1 <= l < MAXH)%nat -> ins_pre key new -> In new (vkn lv) -> pos_full key false ps -> posk lv ps ->
+  (forall s' ps' lv1, tlk t sn s' -> vle lv lv1 -> pos_full key false ps' -> posk lv1 ps' -> SAFEm t (knext s' ps') lv1) ->
+  (forall s' lv1, tlk t sn s' -> vle lv lv1 -> SAFEm t (kdone s') lv1) -> (forall lv1, vle lv lv1 -> SAFEm t kf lv1) ->
+  SAFEm t (ia_level fuel s key new h l p ps knext kdone kf) lv.
+Proof.
+  induction fuel as [|f IH]; intros s key new h l p ps knext kdone kf lv Ht Hl Hn Kn Hp Hq Hk Hd Hf; cbn [ia_level]; [apply Hf, vle_refl|].
+  destruct l as [|l']; [lia|]. destruct (Hp (S l') ltac:(lia)) as [P1 P2]. destruct (Hq (S l') ltac:(lia)) as [Q1 Q2].
+  assert (Hgive : forall lv1, vle lv lv1 ->
+            SAFEm t (Act (a_fas_unl new (Z.of_nat (h - S l'))) (fun _ => find_position (S f) s key false null ps (fun s' _ => kdone s') kf)) lv1).
+  { intros lv1 V. snx. apply (T_find_position t sn); auto.
+    - intros s' o lv2 Hs V2 _ _. apply Hd; [exact Hs|]. eapply vle_trans; eauto.
+    - intros lv2 V2. apply Hf. eapply vle_trans; eauto. }
+  apply Sm_cas_up; [discriminate|cbn [fst]; eapply new_succ; eauto|exact Q2|]. intros ok c Lc. cbn [vok].
+  assert (V1 : vle lv (addkn (fst c) lv)) by apply vle_addkn.
+  destruct ok; cbn [negb]; [|now apply Hgive].
+  apply Sm_cas_up; [discriminate|cbn [fst]; eapply below_new; eauto|right; eapply vle_kn; eauto|]. intros ok2 c2 _. cbn [vok].
+  set (lv2 := addkn (fst c2) (addkn (fst c) lv)). assert (V2 : vle lv lv2) by (eapply vle_trans; [exact V1|apply vle_addkn]).
+  destruct ok2; [apply Hk; auto; eapply posk_mono; eauto|].
+  apply (T_find_position t sn); auto.
+  - intros s' o lv3 Hs V3 [Ho _] Hkn. assert (V03 : vle lv lv3) by (eapply vle_trans; eauto). destruct o as [ps'|ps'|].
+    + cbn [fp_post okn] in *. destruct Ho as [(X & _)|(Ho & _)]; [discriminate|]. destruct Hkn as (_ & Hkn).
+      apply IH; auto.
+      * eapply vle_kn; eauto.
+      * now apply (posk_full false).
+      * intros s'' ps'' lv4 Hs' V4. apply Hk; auto. eapply vle_trans; eauto.
+      * intros s'' lv4 Hs' V4. apply Hd; auto. eapply vle_trans; eauto.
+      * intros lv4 V4. apply Hf. eapply vle_trans; eauto.
+    + snx. apply (T_find_position t sn); auto.
+      * intros s'' o' lv4 Hs' V4 _ _. apply Hd; auto. eapply vle_trans; eauto.
+      * intros lv4 V4. apply Hf. eapply vle_trans; eauto.
+    + snx. apply (T_find_position t sn); auto.
+      * intros s'' o' lv4 Hs' V4 _ _. apply Hd; auto. eapply vle_trans; eauto.
+      * intros lv4 V4. apply Hf. eapply vle_trans; eauto.
+  - intros lv3 V3. apply Hf. eapply vle_trans; eauto.
+Qed.
+
+Lemma T_ia_levels {R} t sn fuel : forall n s key new h l ps (kdone : TL -> prog R) kf lv,
+  tlk t sn s -> (1 <= l)%nat -> (l + n <= MAXH)%nat -> ins_pre key new -> In new (vkn lv) -> pos_full key false ps -> posk lv ps ->
+  (forall s' lv1, tlk t sn s' -> vle lv lv1 -> SAFEm t (kdone s') lv1) -> (forall lv1, vle lv lv1 -> SAFEm t kf lv1) ->
+  SAFEm t (ia_levels fuel n s key new h l ps kdone kf) lv.
+Proof.
+  induction n as [|n IH]; intros s key new h l ps kdone kf lv Ht H1 H2 Hn Kn Hp Hq Hd Hf; cbn [ia_levels]; [apply Hd; [exact Ht|apply vle_refl]|].
+  apply (T_ia_level t sn); auto; [lia|].
+  intros s' ps' lv1 Hs V Hp' Hq'. apply IH; auto; [lia|eapply vle_kn; eauto| |].
+  - intros s'' lv2 Hs' V2. apply Hd; auto. eapply vle_trans; eauto.
+  - intros lv2 V2. apply Hf. eapply vle_trans; eauto.
+Qed.
+
+Lemma T_insert_at {R} t sn fuel s key new h ps (k : TL -> bool -> prog R) kf v lv :
+  tlk t sn s -> vser lv = sn -> (1 <= h <= MAXH)%nat -> ins_pre key new -> pos_full key true ps -> posk lv ps ->
+  vown lv = Some (new, v) -> vst lv = @Pending SetSpec (SInsert key) ->
+  (forall s' lv1, tlk t sn s' -> vser lv1 = sn -> vst lv1 = @Pending SetSpec (SInsert key) -> (exists v', vown lv1 = Some (new, v')) ->
+      SAFEm t (k s' false) lv1) ->
+  kpost t sn (@Linearized SetSpec (SInsert key) (RBool true)) (fun s' => k s' true) -> kfpost t sn kf ->
+  SAFEm t (insert_at fuel s key new h ps k kf) lv.
+Proof.
+  intros Ht Hser Hh Hn Hp Hq Ho Hst Hk0 Hk1 Hf. unfold insert_at. apply T_ia_clear_upper with (v := v); [lia|exact Ho|].
+  destruct (Hp 0%nat ltac:(unfold MAXH; lia)) as [P1 P2]. destruct (Hq 0%nat ltac:(unfold MAXH; lia)) as [Q1 Q2].
+  apply Sm_st_own with (v := v); [exact Ho|cbn [fst]; eapply new_succ0; eauto|exact Q2|]. intros _. cbn [Nat.eqb].
+  set (lv1 := set_own lv (Some (new, (psucc ps 0%nat, false)))).
+  apply Sm_cas0_link with (key := key); auto; [apply Hn| |].
+  - intros cur. cbn [vok negb]. assert (V : vle lv1 (addkn (fst cur) lv1)) by apply vle_addkn.
+    apply Hk0; [exact Ht|rewrite (vle_ser _ _ V); exact Hser|rewrite (vle_st _ _ V); exact Hst|].
+    rewrite (vle_own _ _ V). eexists. reflexivity.
+  - cbn [vok negb]. apply (T_ia_levels t sn); [exact Ht|lia|lia|exact Hn|now left|now apply pos_full_weaken| | |].
+    + eapply posk_incl; [|exact Hq]. cbn [vkn lv1 set_own]. apply incl_tl, incl_refl.
+    + intros s' lv2 Hs V. apply Hk1; [exact Hs|rewrite (vle_ser _ _ V); exact Hser|rewrite (vle_st _ _ V); reflexivity].
+    + intros lv2 V. apply Hf. rewrite (vle_ser _ _ V). exact Hser.
+Qed.
+
+Lemma T_insert_loop {R} t sn fuel : forall s key new h tower ps (k : TL -> bool -> prog R) kf v lv,
+  tlk t sn s -> vser lv = sn -> (1 <= h <= MAXH)%nat -> ins_pre key new ->
+  vown lv = Some (new, v) -> vst lv = @Pending SetSpec (SInsert key) ->
+  kpost t sn (@Pending SetSpec (SInsert key)) (fun s' => k s' false) ->
+  kpost t sn (@Linearized SetSpec (SInsert key) (RBool true)) (fun s' => k s' true) -> kfpost t sn kf ->
+  SAFEm t (insert_loop fuel s key new h tower ps k kf) lv.
+Proof.
+  induction fuel as [|f IH]; intros s key new h tower ps k kf v lv Ht Hser Hh Hn Ho Hst Hk0 Hk1 Hf; cbn [insert_loop]; [now apply Hf|].
+  apply (T_find_position t sn); auto.
+  - intros s1 o lv1 Hs V [Hpo _] Hkn.
+    assert (Hser1 : vser lv1 = sn) by (rewrite (vle_ser _ _ V); exact Hser).
+    assert (Hst1 : vst lv1 = @Pending SetSpec (SInsert key)) by (rewrite (vle_st _ _ V); exact Hst).
+    destruct o as [ps1|ps1|]; try (now apply Hk0).
+    cbn [fp_post okn] in *.
+    assert (Hins : SAFEm t (insert_at (S f) s1 key new h ps1
+              (fun s2 ok => if ok then Act a_ld_hgt (fun _ => Act a_faa_cnt (fun _ => k s2 true))
+                            else insert_loop f s2 key new h true ps1 k kf) kf) lv1).
+    { apply (T_insert_at t sn) with (v := v); auto; [rewrite (vle_own _ _ V); exact Ho| |].
+      - intros s2 lv2 Hs2 Hser2 Hst2 (v' & Ho2). now apply IH with (v := v').
+      - intros s2 lv2 Hs2 Hser2 Hst2. snx. snx. now apply Hk1. }
+    destruct tower; [exact Hins|]. destruct (Nat.ltb 1 h); [|exact Hins]. apply Sm_st_unl; [lia|]. intros _. exact Hins.
+  - intros lv1 V. apply Hf. rewrite (vle_ser _ _ V). exact Hser.
+Qed.
+
+
+(** ** find_fastpath: loads and guard operations only *)
+Lemma T_ff_level {R} t fuel : forall s key ga gb lvl pred cur (k : ff_out -> ptr -> prog R) kf lv,
+  (forall o p lv1, vle lv lv1 -> SAFEm t (k o p) lv1) -> (forall lv1, vle lv lv1 -> SAFEm t kf lv1) ->
+  SAFEm t (ff_level fuel s key ga gb lvl pred cur k kf) lv.
+Proof.
+  induction fuel as [|f IH]; intros s key ga gb lvl pred cur k kf lv Hk Hf; cbn [ff_level]; [apply Hf, vle_refl|].
+  destruct (Nat.eqb (fst cur) null && negb (snd cur)); [apply Hk, vle_refl|]. destruct (snd cur); [apply Hk, vle_refl|].
+  destruct (cmpk (fst cur) key <? 0).
+  - apply Sm_copy. apply T_ga_protect; [exact Hf|]. intros nx lv1 V _ _. apply IH.
+    + intros o p lv2 V2. apply Hk. eapply vle_trans; eauto.
+    + intros lv2 V2. apply Hf. eapply vle_trans; eauto.
+  - destruct (cmpk (fst cur) key =? 0); [|apply Hk, vle_refl]. apply Sm_ld. intros x _. cbn [vp].
+    destruct (snd x); apply Hk, vle_addkn.
+Qed.
+
+Lemma T_ff_levels {R} t fuel : forall n s key ga gb pred (k : ff_out -> prog R) kf lv,
+  (forall o lv1, vle lv lv1 -> SAFEm t (k o) lv1) -> (forall lv1, vle lv lv1 -> SAFEm t kf lv1) ->
+  SAFEm t (ff_levels fuel n s key ga gb pred k kf) lv.
+Proof.
+  induction n as [|lvl IH]; intros s key ga gb pred k kf lv Hk Hf; cbn [ff_levels]; [apply Hk, vle_refl|].
+  apply T_ga_protect; [exact Hf|]. intros cur lv1 V _ _. apply T_ff_level.
+  - intros o p lv2 V2. assert (V02 : vle lv lv2) by (eapply vle_trans; eauto). destruct o; try (now apply Hk).
+    apply IH.
+    + intros o lv3 V3. apply Hk. eapply vle_trans; eauto.
+    + intros lv3 V3. apply Hf. eapply vle_trans; eauto.
+  - intros lv2 V2. apply Hf. eapply vle_trans; eauto.
+Qed.
+
+Lemma T_find_fastpath {R} t fuel : forall s key ga gb attempt (k : ff_out -> prog R) kf lv,
+  (forall o lv1, vle lv lv1 -> SAFEm t (k o) lv1) -> (forall lv1, vle lv lv1 -> SAFEm t kf lv1) ->
+  SAFEm t (find_fastpath fuel s key ga gb attempt k kf) lv.
+Proof.
+  induction fuel as [|f IH]; intros s key ga gb attempt k kf lv Hk Hf; cbn [find_fastpath]; [apply Hf, vle_refl|].
+  snx. apply T_ff_levels; [|exact Hf]. intros o lv1 V. destruct o; try (now apply Hk).
+  destruct (Nat.ltb (S attempt) 4); [|now apply Hk]. apply IH.
+  - intros o lv2 V2. apply Hk. eapply vle_trans; eauto.
+  - intros lv2 V2. apply Hf. eapply vle_trans; eauto.
+Qed.
+
+(** ** the operations *)
+Lemma node_id_owner t ser k : (t < 64)%nat -> (k < 8)%nat -> owner_of (node_id t ser k) = t.
+Proof.
+  intros Ht Hk. unfold owner_of, node_id, mk_node.
+  replace (2 + 8 * (ser * 64 + t) + k - 2)%nat with (k + (ser * 64 + t) * 8)%nat by lia.
+  rewrite Nat.div_add by lia. rewrite (Nat.div_small k 8) by lia. cbn [Nat.add].
+  rewrite Nat.add_comm, Nat.mod_add by lia. now apply Nat.mod_small.
+Qed.
+Lemma node_id_ser t ser k : (t < 64)%nat -> (k < 8)%nat -> ser_of (node_id t ser k) = ser.
+Proof.
+  intros Ht Hk. unfold ser_of, node_id, mk_node.
+  replace (2 + 8 * (ser * 64 + t) + k - 2)%nat with (k + (ser * 64 + t) * 8)%nat by lia.
+  rewrite Nat.div_add by lia. rewrite (Nat.div_small k 8) by lia. cbn [Nat.add].
+  rewrite Nat.add_comm, Nat.div_add by lia. rewrite (Nat.div_small t 64) by lia. reflexivity.
+Qed.
+
+(** the constructor of my next node: the node becomes my not-yet-linked node *)
+Lemma S_alloc {R} t key (k : V -> prog R) lv :
+  (t < 64)%nat -> (key < 8)%nat ->
+  (forall v w, SAFE t (k v) (mkLV (vkn lv) (vfz lv) (Some (node_id t (vser lv) key, w)) (S (vser lv)) (vst lv))) ->
+  SAFE t (Act (a_st_unl (node_id t (vser lv) key) 1 1) k) lv.
+Proof.
+  intros Ht Hkey H. apply S_act. intros g a tr [Hs Hl] Hv. set (new := node_id t (vser lv) key).
+  set (lv' := mkLV (vkn lv) (vfz lv) (Some (new, nxt g new 0)) (S (vser lv)) (vst lv)).
+  exists (apub a), (aL a), lv', (aatr a). split; [|apply H].
+  cbn [a_st_unl fst snd]. pose proof (s_views _ _ Hs t) as Vt. rewrite Hv in Vt. destruct Vt as (K & F & O & Fr).
+  assert (Hnew : isnode new) by apply mk_node_isnode.
+  destruct (Fr new Hnew (node_id_owner _ _ _ Ht Hkey) ltac:(unfold new; rewrite node_id_ser by assumption; lia)) as [Fp _].
+  eapply inv_step; [| |exact Hl].
+  - apply (IS_view g _ a t lv' (aatr a) Hs); [reflexivity| |].
+    + intros p'. cbn [hgt_of]. unfold upd1. destruct (Nat.eqb p' new); [unfold MAXH; lia|apply (s_HB _ _ Hs)].
+    + eapply lv_ok_ext; [reflexivity|]. split; [exact K|]. split; [exact F|]. split.
+      * cbn [vown lv' own_ok]. repeat split; auto. apply node_id_owner; assumption.
+      * intros n H1 H2 H3. cbn [vser lv'] in H3. destruct (Fr n H1 H2 ltac:(lia)) as [F1 F2]. split; [exact F1|].
+        intros w E. cbn [vown lv'] in E. inversion E; subst n. unfold new in H3. rewrite node_id_ser in H3 by assumption. lia.
+  - intros Hil. apply IL_keep with (g := g); [exact Hil|rewrite Hv; reflexivity|auto].
+Qed.
+
+Lemma Sm_alloc {R} t key (k : V -> prog R) lv :
+  (t < 64)%nat -> (key < 8)%nat ->
+  (forall v w, SAFEm t (k v) (mkLV (vkn lv) (vfz lv) (Some (node_id t (vser lv) key, w)) (S (vser lv)) (vst lv))) ->
+  SAFEm t (Act (a_st_unl (node_id t (vser lv) key) 1 1) k) lv.
+Proof.
+  intros Ht Hk H lv' Hle. pose proof Hle as (L1 & L2 & L3 & L4 & L5). rewrite <- L4. apply S_alloc; auto.
+  intros v w. apply H. repeat split; cbn; auto. now rewrite L4.
+Qed.
+
+Lemma tlk_allocn t sn : forall n s xs s1, allocn n s = (xs, s1) -> tlk t sn s -> tlk t sn s1.
+Proof.
+  induction n as [|n IH]; intros s xs s1 E H; cbn [allocn] in E; [inversion E; subst; exact H|].
+  destruct (alloc1 s) as [x s'] eqn:Ea. destruct (allocn n s') as [ys s2] eqn:En. inversion E; subst.
+  eapply IH; [exact En|]. eapply tlk_alloc1; eauto.
+Qed.
+
+Lemma Sm_free_all_tlk {R} t sn slots : forall s (k : TL -> prog R) lv,
+  tlk t sn s -> (forall s', tlk t sn s' -> SAFEm t (k s') lv) -> SAFEm t (g_free_all s slots k) lv.
+Proof.
+  induction slots as [|x r IH]; intros s k lv Ht H; cbn [g_free_all]; [now apply H|]. apply Sm_clear. apply IH; [now apply tlk_free1|exact H].
+Qed.
+
+(** what the rest of the thread's program needs between two operations *)
+Definition between {R} t (cont : TL -> prog R) : Prop :=
+  forall s' lv1, tlk t (vser lv1) s' -> vst lv1 = @Idle SetSpec -> SAFEm t (cont s') lv1.
+
+Lemma set_st_ser lv st : vser (set_st lv st) = vser lv. Proof. reflexivity. Qed.
+Lemma set_st_st lv st : vst (set_st lv st) = st. Proof. reflexivity. Qed.
+
+Lemma T_finish_read {R} t sn s o ra b (cont : TL -> prog R) lv :
+  tlk t sn s -> vser lv = sn -> vst lv = @Pending SetSpec o -> MI.is_read o (RBool (ra =? 1)) = true -> between t cont ->
+  SAFEm t (finish s ra b cont) lv.
+Proof.
+  intros Ht Hser Hst Hr Hc. unfold finish. eapply Sm_emit_res_read; eauto. apply Hc; [rewrite set_st_ser, Hser; exact Ht|reflexivity].
+Qed.
+Lemma T_finish_lin {R} t sn s o b (cont : TL -> prog R) lv :
+  tlk t sn s -> vser lv = sn -> vst lv = @Linearized SetSpec o (RBool true) -> MI.is_read o (RBool true) = false -> between t cont ->
+  SAFEm t (finish s 1 b cont) lv.
+Proof.
+  intros Ht Hser Hst Hr Hc. unfold finish. eapply Sm_emit_res_lin; eauto. apply Hc; [rewrite set_st_ser, Hser; exact Ht|reflexivity].
+Qed.
+Lemma T_out_of_fuel {R} t sn s (cont : TL -> prog R) lv :
+  tlk t sn s -> vser lv = sn -> between t cont -> SAFEm t (out_of_fuel s cont) lv.
+Proof.
+  intros Ht Hser Hc lv' Hle. unfold out_of_fuel.
+  apply S_emit_gen with (lv1 := set_st lv' (@Idle SetSpec)).
+  - intros g a tr [Hs Hil] Hv. exists (aatr a). split; [now apply IS_set_st|right].
+    exists t. apply in_or_app. right. now left.
+  - apply Hc; [rewrite set_st_ser, (vle_ser _ _ Hle), Hser; exact Ht|reflexivity|apply vle_refl].
+Qed.
+
+Lemma T_op_contains {R} t fuel s k (cont : TL -> prog R) lv :
+  tlk t (vser lv) s -> vst lv = @Pending SetSpec (SContains (Z.of_nat k)) -> between t cont ->
+  SAFEm t (op_contains fuel s k cont) lv.
+Proof.
+  intros Ht Hst Hc. unfold op_contains. destruct (allocn 2 s) as [gs s1] eqn:Ea.
+  pose proof (tlk_allocn _ _ _ _ _ _ Ea Ht) as Ht1.
+  assert (Hfin : forall s2 ra lv1, tlk t (vser lv) s2 -> vle lv lv1 -> SAFEm t (finish s2 ra 0 cont) lv1).
+  { intros s2 ra lv1 Hs V. eapply T_finish_read; eauto; [apply (vle_ser _ _ V)|rewrite (vle_st _ _ V); exact Hst]. }
+  apply T_find_fastpath.
+  - intros o lv1 V. apply (Sm_free_all_tlk t (vser lv)); [exact Ht1|]. intros s2 Hs2. destruct o; try (now apply Hfin).
+    destruct (allocn _ s2) as [slots s3] eqn:Ea3. pose proof (tlk_allocn _ _ _ _ _ _ Ea3 Hs2) as Ht3.
+    apply (T_find_position t (vser lv)); auto.
+    + intros s4 o' lv2 Hs4 V2 _ _. apply (Sm_free_all_tlk t (vser lv)); [exact Hs4|]. intros s5 Hs5.
+      destruct o'; apply Hfin; auto; eapply vle_trans; eauto.
+    + intros lv2 V2. apply (Sm_free_all_tlk t (vser lv)); [exact Ht3|]. intros s5 Hs5.
+      eapply T_out_of_fuel; eauto. rewrite (vle_ser _ _ V2). apply (vle_ser _ _ V).
+  - intros lv1 V. apply (Sm_free_all_tlk t (vser lv)); [exact Ht1|]. intros s2 Hs2. eapply T_out_of_fuel; eauto. apply (vle_ser _ _ V).
+Qed.
+
+Lemma T_op_erase {R} t fuel s k (cont : TL -> prog R) lv :
+  tlk t (vser lv) s -> vst lv = @Pending SetSpec (SErase (Z.of_nat k)) -> between t cont ->
+  SAFEm t (op_erase fuel s k cont) lv.
+Proof.
+  intros Ht Hst Hc. unfold op_erase. destruct (allocn _ s) as [slots s1] eqn:Ea.
+  pose proof (tlk_allocn _ _ _ _ _ _ Ea Ht) as Ht1. set (sn := vser lv) in *.
+  assert (Hf : kfpost t sn (g_free_all s1 slots (fun s' => out_of_fuel s' cont))).
+  { intros lv1 E. apply (Sm_free_all_tlk t sn); [exact Ht1|]. intros s' Hs'. eapply T_out_of_fuel; eauto. }
+  assert (Hfin0 : forall s2 lv1, tlk t sn s2 -> vle lv lv1 -> SAFEm t (g_free_all s2 slots (fun s' => finish s' 0 0 cont)) lv1).
+  { intros s2 lv1 Hs V. apply (Sm_free_all_tlk t sn); [exact Hs|]. intros s' Hs'.
+    eapply T_finish_read; eauto; [apply (vle_ser _ _ V)|rewrite (vle_st _ _ V); exact Hst]. }
+  apply (T_find_position t sn); auto.
+  - intros s2 o lv1 Hs2 V [Ho Hn] Hkn. destruct o as [ps|ps|]; try (now apply Hfin0).
+    cbn [fp_post okn] in *. destruct Ho as [(X & _)|(Hp & Hcur)]; [discriminate|]. specialize (Hn eq_refl).
+    destruct Hkn as (Kc & Hq). apply (posk_full false) in Hq; [|reflexivity].
+    pose proof (fp_rem_pre _ _ Hp Hcur Hn) as Hrem.
+    assert (Ekey : key_of (pcur ps) = Z.of_nat k) by (destruct Hcur as [E|(_ & E)]; [congruence|exact E]).
+    destruct (alloc1 s2) as [gdel s3] eqn:Ea3. pose proof (tlk_alloc1 _ _ _ _ _ Ea3 Hs2) as Ht3.
+    replace (tid s3) with t by (symmetry; apply Ht3).
+    apply Sm_guard_h. intros h Hh. snx. cbn [vz]. rewrite Nat2Z.id.
+    apply (T_try_remove_at t sn); auto.
+    + apply (vle_ser _ _ V).
+    + destruct Kc as [E|Kc]; [congruence|exact Kc].
+    + rewrite (vle_st _ _ V), Ekey. exact Hst.
+    + rewrite Ekey. intros s4 lv2 Hs4 Hser2 Hst2. apply Sm_clear. apply (Sm_free_all_tlk t sn); [now apply tlk_free1|]. intros s' Hs'.
+      eapply T_finish_read; eauto.
+    + rewrite Ekey. intros s4 lv2 Hs4 Hser2 Hst2. snx. apply Sm_clear. apply (Sm_free_all_tlk t sn); [now apply tlk_free1|]. intros s' Hs'.
+      eapply T_finish_lin; eauto.
+  - intros lv1 V. apply Hf. apply (vle_ser _ _ V).
+Qed.
+
+Lemma T_op_insert {R} t fuel s k h (cont : TL -> prog R) lv :
+  (t < 64)%nat -> (k < 8)%nat -> (1 <= h <= MAXH)%nat ->
+  tlk t (vser lv) s -> vst lv = @Pending SetSpec (SInsert (Z.of_nat k)) -> between t cont ->
+  SAFEm t (op_insert fuel s k h cont) lv.
+Proof.
+  intros Hlt Hk Hh Ht Hst Hc. unfold op_insert. destruct Ht as [Ht1 Ht2]. rewrite Ht1, Ht2.
+  apply Sm_alloc; auto. intros _ w. set (new := node_id t (vser lv) k). set (sn := S (vser lv)).
+  set (lv0 := mkLV (vkn lv) (vfz lv) (Some (new, w)) sn (vst lv)).
+  assert (Ht0 : tlk t sn (mkTL t (fl s) sn)) by (split; reflexivity).
+  destruct (alloc1 _) as [gnew s1] eqn:Ea1. pose proof (tlk_alloc1 _ _ _ _ _ Ea1 Ht0) as Hs1.
+  apply Sm_assign. destruct (allocn _ s1) as [slots s2] eqn:Ea2. pose proof (tlk_allocn _ _ _ _ _ _ Ea2 Hs1) as Hs2.
+  apply (T_insert_loop t sn) with (v := w); auto.
+  - split; [apply mk_node_isnode|unfold node_id; now apply mk_node_key].
+  - intros s' lv1 Hs' Hser1 Hst1. apply (Sm_free_all_tlk t sn); [exact Hs'|]. intros s'' Hs''. apply Sm_clear.
+    eapply T_finish_read; eauto. now apply tlk_free1.
+  - intros s' lv1 Hs' Hser1 Hst1. apply (Sm_free_all_tlk t sn); [exact Hs'|]. intros s'' Hs''. apply Sm_clear.
+    eapply T_finish_lin; eauto. now apply tlk_free1.
+  - intros lv1 Hser1. apply (Sm_free_all_tlk t sn); [exact Hs2|]. intros s'' Hs''. apply Sm_clear.
+    eapply T_out_of_fuel; eauto. now apply tlk_free1.
+Qed.
+
+(** programs of insert / erase / contains *)
+Definition op_ok' (o : op) : Prop :=
+  match o with
+  | OIns k h => (k < 8)%nat /\ (1 <= h <= MAXH)%nat
+  | OErase _ | OContains _ => True
+  | OExtMin | OExtMax => False
+  end.
+
+Lemma T_run_ops t fuel : (t < 64)%nat -> forall os, Forall op_ok' os -> between t (fun s => run_ops fuel s os).
+Proof.
+  intros Hlt. induction os as [|o r IH]; intros Hok s lv Ht Hst; cbn [run_ops]; [apply Sm_ret|].
+  inversion Hok as [|? ? Ho Hr]; subst. specialize (IH Hr). unfold run_op. destruct o as [k h| k | k | |]; cbn [op_ok'] in Ho; try contradiction.
+  - apply Sm_emit_inv; [exact Hst|]. destruct Ho. apply T_op_insert; auto.
+  - apply Sm_emit_inv; [exact Hst|]. apply T_op_erase; auto.
+  - apply Sm_emit_inv; [exact Hst|]. apply T_op_contains; auto.
+Qed.
+
+Lemma T_thread t fuel os lv :
+  (t < 64)%nat -> Forall op_ok' os -> vser lv = 0%nat -> vst lv = @Idle SetSpec -> SAFE t (thread_prog fuel t os) lv.
+Proof.
+  intros Hlt Hok Hser Hst. unfold thread_prog. apply (Sm_nx t a_begin); [nxl| |apply vle_refl].
+  intros _. apply (T_run_ops t fuel Hlt os Hok); [rewrite Hser; split; reflexivity|exact Hst].
 Qed.
 
 End WithNodes.
